@@ -582,6 +582,15 @@ def b_range(eng, args, kw):
 
 def b_enumerate(eng, args, kw):
     it = args[0]
+    if isinstance(it, (SObj, OptObj)):
+        it = eng.iterable(it)
+    start = kw.get('start', args[1] if len(args) > 1 else 0)
+    if start != 0:
+        items = eng.concrete_items(it)
+        if items is not None:
+            return [(r_add(start, i), x) for i, x in enumerate(items)]
+        seq0 = eng.as_seq(it)
+        return SSeq(seq0.length, lambda i, seq0=seq0: (r_add(start, i), seq0.at(i)), 'enumerate(%s, %s)' % (seq0.label, start))
     items = eng.concrete_items(it)
     if items is not None:
         return [(i, x) for i, x in enumerate(items)]
@@ -590,6 +599,7 @@ def b_enumerate(eng, args, kw):
 
 
 def b_zip(eng, args, kw):
+    args = [eng.iterable(a) if isinstance(a, (SObj, OptObj)) else a for a in args]
     lists = [eng.concrete_items(a) for a in args]
     if all(l is not None for l in lists):
         return [tuple(t) for t in zip(*lists)]
@@ -1455,6 +1465,11 @@ def setitem(eng, base, idx, v):
         eng.note_write(('nd', base))
         return
     if isinstance(base, SArr):
+        if isinstance(idx, tuple) and len(idx) == base.rank and all(is_intlike(i) for i in idx):
+            # a[i, j] = v : the same element as a[i][j] = v
+            base.writes.append((tuple(idx), v))
+            eng.note_write(('arr', base))
+            return
         if base.rank != 1:
             raise EngineError('store into rank-%d array without full index' % base.rank)
         if isinstance(idx, Opt):
